@@ -101,6 +101,27 @@ func runC09(c *an.Ctx) {
 			okRef = true
 		}
 		c.Check(okName, "C09.sites", "(*Runtime).executeInclude/name", call.Pos(), "include looks up the string its name expression evaluates to", "the name handed to getSiblingTemplate is not the evaluated include name")
+		// … evaluated in the includer's own context: the name expression is evaluated before '.' is replaced by
+		// the context handed to the included template ({{ include .Partial .Payload }})
+		{
+			lateName := token.NoPos
+			nx := p.NewExplorer(incl, an.Hooks{
+				PreAssign: func(x *an.Explorer, lhs, rhs ast.Expr, stmt ast.Node, st *an.State) {
+					if p.FieldKey(info, lhs) == "Runtime.context" {
+						st.Set("ctxReplaced", "1")
+					}
+				},
+				Call: func(x *an.Explorer, ec *ast.CallExpr, st *an.State) {
+					if an.CalleeName(info, ec) == "(*jet.Runtime).evalPrimaryExpressionGroup" && len(ec.Args) == 1 && an.Norm(incl, ec.Args[0]) == "$p0.Name" && st.Get("ctxReplaced") != "" && !lateName.IsValid() {
+						lateName = ec.Pos()
+					}
+				},
+			})
+			nx.Run(nil)
+			c.States += nx.Visited
+			c.Check(!lateName.IsValid() && nx.Undecided == "", "C09.sites", "(*Runtime).executeInclude/name-in-own-context", incl.Pos(), "the include name is evaluated before '.' is replaced",
+				"executeInclude evaluates the name of the template to include after '.' was replaced by the include's context argument: a computed name such as .Partial is resolved against the handed-over context instead of the includer's")
+		}
 		c.Check(okRef, "C09.sites", "(*Runtime).executeInclude/referrer", call.Pos(), "relative include names resolve against the including file", "include does not pass the including node's TemplatePath as the referrer: relative names resolve against the wrong directory")
 	}
 	for _, f := range []*an.Fn{exec, iie} {
